@@ -40,6 +40,8 @@ type Config struct {
 	Seed             int64
 	Params           map[string]int64 // harness parameters (vrt.Param)
 	MaxViolations    int
+	ProbeHot         bool // run a non-forking round-robin pass first to collect hot read sites
+	ProbeMode        bool // (internal) this exploration is that pass
 	Trace            bool
 	InitAllow        []string // extra package path prefixes whose init is executed
 	StopOnViolation  bool
@@ -73,6 +75,9 @@ type Result struct {
 	Wall         time.Duration
 	UninitReads  []string
 	MaxSteps     int64
+	StoppedEarly string
+	Rounds       int      // explorations started (restarts after a new hot read site + 1)
+	HotSites     []string // read-only synchronisation sites treated as scheduling points
 }
 
 // Program is a loaded and built SSA program with a harness package.
@@ -156,10 +161,57 @@ type explorer struct {
 	start  time.Time
 	paths  int64
 	sigSeen map[string]bool
+	hangs   int
+	hot     *hotSet
+	restart bool
 }
 
-// Explore runs the harness over all decision sequences.
+// Explore runs the harness over all decision sequences.  When a path finds
+// that a read-only synchronisation site can interact with another thread (see
+// sched.go, hotSet) the exploration is restarted with that site as a scheduling
+// point; the result is that of the last, uninterrupted exploration.
 func Explore(p *Program, cfg Config) (*Result, error) {
+	hot := &hotSet{sites: map[string]bool{}}
+	start := time.Now()
+	if cfg.ProbeHot && cfg.MaxPreemptions > 0 {
+		// cheap first pass with one fixed round-robin schedule per data path: conflicts are flagged whatever the order of the two
+		// operations, so it finds (nearly) all hot sites before the real exploration starts
+		pc := cfg
+		pc.ProbeMode = true
+		pc.MaxPaths = 60000
+		pc.StopOnViolation = false
+		for k := 0; k < 20; k++ {
+			_, restart, err := exploreOnce(p, pc, hot, start)
+			if err != nil {
+				return nil, err
+			}
+			if !restart {
+				break
+			}
+		}
+		fmt.Fprintf(os.Stderr, "probe pass: %d hot read sites after %.1fs\n", len(hot.sites), time.Since(start).Seconds())
+	}
+	for round := 1; ; round++ {
+		res, restart, err := exploreOnce(p, cfg, hot, start)
+		if err != nil {
+			return nil, err
+		}
+		if restart {
+			fmt.Fprintf(os.Stderr, "round %d abandoned after %.1fs and %d paths: %d hot read sites now\n", round, time.Since(start).Seconds(), res.Stats.Paths, len(hot.sites))
+		}
+		if !restart {
+			res.Rounds = round
+			for s := range hot.sites {
+				res.HotSites = append(res.HotSites, s)
+			}
+			sort.Strings(res.HotSites)
+			res.Wall = time.Since(start)
+			return res, nil
+		}
+	}
+}
+
+func exploreOnce(p *Program, cfg Config, hot *hotSet, start time.Time) (*Result, bool, error) {
 	if cfg.Workers <= 0 {
 		cfg.Workers = 1
 	}
@@ -182,9 +234,9 @@ func Explore(p *Program, cfg Config) (*Result, error) {
 		cfg.MaxViolations = 50
 	}
 	if p.Main.Func(cfg.Harness) == nil {
-		return nil, fmt.Errorf("harness function %s not found in %s", cfg.Harness, p.Main.Pkg.Path())
+		return nil, false, fmt.Errorf("harness function %s not found in %s", cfg.Harness, p.Main.Pkg.Path())
 	}
-	ex := &explorer{prog: p, cfg: &cfg, start: time.Now(), sigSeen: map[string]bool{}}
+	ex := &explorer{prog: p, cfg: &cfg, start: start, sigSeen: map[string]bool{}, hot: hot}
 	ex.cond = sync.NewCond(&ex.mu)
 	ex.res = &Result{Outcomes: map[string]int64{}, ViolCount: map[string]int64{}, Inconclusive: map[string]int64{},
 		Functions: map[string]int64{}, Reached: map[string]int64{}}
@@ -207,13 +259,27 @@ func Explore(p *Program, cfg Config) (*Result, error) {
 	wg.Wait()
 	select {
 	case err := <-errs:
-		return nil, err
+		return nil, false, err
 	default:
 	}
 	ex.res.Wall = time.Since(ex.start)
 	ex.res.Unexplored = len(ex.stack)
 	ex.res.Exhaustive = len(ex.stack) == 0 && ex.res.Stats.ConcretizeOverflow == 0
-	return ex.res, nil
+	// out of time: report what was explored rather than restarting for ever
+	timedOut := ex.cfg.WallLimit > 0 && time.Since(ex.start) > ex.cfg.WallLimit
+	if ex.restart && timedOut {
+		ex.res.Exhaustive = false
+	}
+	return ex.res, ex.restart && !timedOut, nil
+}
+
+// hotGrew: a worker found a new hot read site; abandon this exploration.
+func (ex *explorer) hotGrew() {
+	ex.mu.Lock()
+	ex.restart = true
+	ex.stop = true
+	ex.cond.Broadcast()
+	ex.mu.Unlock()
 }
 
 func (ex *explorer) pop() (WorkItem, bool) {
@@ -275,7 +341,14 @@ func (ex *explorer) report(v Violation) {
 		ex.sigSeen[sig] = true
 		ex.res.Violations = append(ex.res.Violations, v)
 	}
-	if ex.cfg.StopOnViolation {
+	if v.Kind == "hang" {
+		// every hanging path burns the whole step budget: a handful of them decides the run
+		ex.hangs++
+	}
+	if ex.cfg.StopOnViolation || ex.hangs >= 24 {
+		if !ex.cfg.StopOnViolation && !ex.stop {
+			ex.res.StoppedEarly = "24 hanging paths found: exploration stopped (violations already decide the verdict)"
+		}
 		ex.stop = true
 		ex.cond.Broadcast()
 	}
@@ -309,6 +382,8 @@ func (ex *explorer) newInterpreter() (*interpreter, error) {
 	}
 	i.push = ex.push
 	i.report = ex.report
+	i.hot = ex.hot
+	i.hotGrew = ex.hotGrew
 	if rt := i.prog.ImportedPackage("runtime"); rt != nil {
 		i.runtimeErrorString = rt.Type("errorString").Object().Type()
 	} else {
